@@ -144,14 +144,26 @@ def check(case) -> core.Out:
         if nm:
             forms.append(("names", nm))
             out.classes.append("addr-names")
+        # the same call with equal values of other types: the mode as an IntEnum member
+        # or a bool, the raw payload as a bytearray (memoryview: only if it is accepted)
+        forms = [(lb, ab, mode, kwargs) for lb, ab in forms]
+        ab0 = (clsid[0:1], clsid[1:2])
+        forms.append(("enum-mode", ab0, C.ModeEnum(mode), kwargs))
+        if mode in (0, 1):
+            forms.append(("bool-mode", ab0, bool(mode), kwargs))
+        if "payload" in kwargs:
+            forms.append(("bytearray-payload", ab0, mode, dict(kwargs, payload=bytearray(kwargs["payload"]))))
+            forms.append(("memoryview-payload?", ab0, mode, dict(kwargs, payload=memoryview(kwargs["payload"]))))
         builds, fails = [], []
-        for label, (a, b) in forms:
+        for label, (a, b), md, kws in forms:
             try:
-                builds.append((label, pyubx2.UBXMessage(a, b, mode, **kwargs)))
+                builds.append((label, pyubx2.UBXMessage(a, b, md, **kws)))
             except UBXE as err:
-                fails.append((label, type(err).__name__))
+                if not label.endswith("?"):
+                    fails.append((label, type(err).__name__))
             except Exception as err:  # noqa - foreign exception types are C15's business
-                fails.append((label, type(err).__name__))
+                if not label.endswith("?"):
+                    fails.append((label, type(err).__name__))
         if builds and fails:
             out.viol.append((key + "addressing-differs",
                              f"built with {[l for l, _ in builds]} but refused with {fails}"))
@@ -185,7 +197,7 @@ def check(case) -> core.Out:
     out.sample = {"route": route, "mode": C.MODES[mode], "frame": s[:40]}
     if not out.viol:
         try:
-            p = pyubx2.UBXReader.parse(s, msgmode=mode)
+            p = C.uparse(s, mode)
             if p.serialize() != s:
                 out.viol.append((key + "reparse-differs", f"parse(s).serialize() != s for {s[:40].hex()}"))
         except Exception as err:  # noqa
@@ -278,7 +290,7 @@ def run_shard(spec, ctx, acc):
             n = min(65535, 4096 * k - 4)
             case = {"kind": "build", "mode": 0, "clsid": b"\x04\x02", "route": "payload", "defname": None,
                     "payload": codec.zero_state_payload(b"\x04", b"\x02", n, 4096, fill=k), "long": True}
-            core.handle(acc, check(case), case, known)
+            core.handle(acc, core.checked(check, case), case, known)
         return
     # config helpers
     db = pyubx2.UBX_CONFIG_DATABASE
